@@ -255,7 +255,7 @@ func c12IdentAfter(c *Ctx, ns *numberScanner) {
 	var isStart *ssa.Call
 	instrs(f, func(b *ssa.BasicBlock, i int, in ssa.Instruction) {
 		if call, ok := in.(*ssa.Call); ok {
-			if cal := calleeOf(call); cal != nil && c.inModule(cal) && cal.Signature.Results().Len() == 1 && isBoolType(cal.Signature.Results().At(0).Type()) && strings.Contains(strings.ToLower(cal.Name()), "identifierstart") {
+			if cal := calleeOf(call); cal != nil && c.inModule(cal) && cal.Signature.Results().Len() == 1 && isBoolType(cal.Signature.Results().At(0).Type()) && (strings.Contains(strings.ToLower(cal.Name()), "identifierstart") || c.reachesFn(cal, c.fn("IsIdentifierStart"))) {
 				isStart = call
 			}
 		}
@@ -1225,4 +1225,12 @@ func c15Column(c *Ctx) {
 		c.R.Check(rule, c.P.FuncKey(f), c.P.InstrPos(colSt), good, "the column of a position must be the byte offset within its line (offset - lineStarts[line]); "+why)
 	}
 	c.R.Floor(rule, 1)
+}
+
+// reachesFn: g is f or is reachable from f through module functions.
+func (c *Ctx) reachesFn(f, g *ssa.Function) bool {
+	if f == nil || g == nil {
+		return false
+	}
+	return c.P.Reach([]*ssa.Function{f}, c.inModule, nil).In[g]
 }
